@@ -159,10 +159,10 @@ def pretty(script):
 # ------------------------------------------------------------------------------------------- running
 
 def run_both(histories, config='default', model_mode='fixed'):
-    impl = vf.run_sharded(vf.harness_bin('kdriver', config), histories, timeout=1800)
+    impl = vf.run_sharded(vf.harness_bin('kdriver', config), histories)
     # histories with BUILT policies have no counterpart in the model (its operations take policy strings): reference semantics only
     plain = [h for h in histories if not has_built_policy(h)]
-    mres = vf.run_sharded(vf.OCAML + '/kdriver', plain, args=[model_mode], timeout=1800) if plain else []
+    mres = vf.run_sharded(vf.OCAML + '/kdriver', plain, args=[model_mode]) if plain else []
     it = iter(mres)
     model = [None if has_built_policy(h) else next(it) for h in histories]
     return impl, model
